@@ -319,6 +319,11 @@ func (a *scriptActor) doOp(ctx vivid.ActorContext, m umsg) {
 			top = a.bstack[len(a.bstack)-1]
 		}
 		x.ev(map[string]any{"e": "Become", "a": a.name, "n": top})
+	case "sched-stash":
+		// a message that reaches the actor through its scheduler (Once, unique reference) and is stashed on arrival
+		id := x.newID()
+		x.ev(map[string]any{"e": "Tell", "a": a.name, "p": a.name, "m": id, "s": "sstash"})
+		_ = ctx.Scheduler().Once(ctx.Ref(), time.Millisecond, umsg{ID: id, Op: "sstash"}, vivid.WithSchedulerReference(fmt.Sprintf("u%d", id)))
 	case "sched-once", "sched-loop", "sched-cancel":
 		// jobs of the actor itself under one fixed reference (re-use of the reference after Cancel is part of the point);
 		// the scheduled message is an ordinary scripted message whose operation is m.Arg ("nop", "stash")
@@ -341,7 +346,7 @@ func (a *scriptActor) doOp(ctx vivid.ActorContext, m umsg) {
 				_ = sch.Loop(ctx.Ref(), 3*time.Millisecond, asTick{X: x, Owner: a.name}, vivid.WithSchedulerReference("r"))
 			}
 		}
-	case "stash":
+	case "stash", "sstash":
 		ctx.Stash()
 		x.ev(map[string]any{"e": "Stashed", "a": a.name, "m": m.ID, "n": ctx.StashCount()})
 	case "unstash":
